@@ -1,7 +1,7 @@
 (* C08 — A truncated file yields a prefix of its records and an error. *)
 From Coq Require Import List ZArith.
 Require Import Avro.Model.Base Avro.Model.Prim Avro.Model.Schema Avro.Model.Container.
-Require Import Avro.Proofs.ContainerP Avro.Proofs.FileP Avro.Proofs.HeaderCutP.
+Require Import Avro.Proofs.ContainerP Avro.Proofs.FileP Avro.Proofs.HeaderCutP Avro.Proofs.HeaderGenP.
 Import ListNotations.
 Open Scope Z_scope.
 
@@ -66,6 +66,23 @@ Proof.
   repeat split.
 Qed.
 Print Assumptions C08_cut_after_header.
+
+(* the same for the header of any conforming writer: any number of metadata
+   blocks of any number of entries, cut at any of its bytes *)
+Theorem C08_cut_in_any_header : forall sync bl k,
+  len sync = 16 -> Forall block_ok bl ->
+  (k < length (gen_header bl sync))%nat ->
+  read_header (firstn k (gen_header bl sync)) = None.
+Proof. intros sync bl k Hy Hb Hk. exact (header_cut_gen sync Hy bl Hb k Hk). Qed.
+Print Assumptions C08_cut_in_any_header.
+
+Example C08_header_ex :
+  let sync := repeat 7 16 in
+  let bl := [[([97], [1]); ([98], [2; 3])]; [([97], [9])]] in
+  let h := gen_header bl sync in
+  forallb (fun k => match read_header (firstn k h) with None => true | Some _ => false end) (seq 0 (length h)) = true
+  /\ match read_header h with Some (_, []) => True | _ => False end.
+Proof. split; vm_compute; [reflexivity|exact I]. Qed.
 
 (* non-vacuity: every cut position of a two-block body *)
 Example C08_ex :
